@@ -76,8 +76,8 @@ func loadEngine(repo string, cfg BuildConfig, contractDir string) (*Engine, erro
 	for _, path := range pkgOrder {
 		rel := strings.TrimPrefix(strings.TrimPrefix(path, "github.com/oasisprotocol/ed25519"), "/")
 		file := filepath.Join(repo, rel, "verif_contracts.go")
-		if _, err := os.Stat(file); err != nil {
-			// mirror
+		if _, err := os.Stat(file); err != nil || os.Getenv("GOVC_MIRROR") != "" {
+			// mirror (development: GOVC_MIRROR=1 reads the contracts from /verif/contracts)
 			name := strings.ReplaceAll(rel, "/", "_")
 			if name == "" {
 				name = "ed25519"
@@ -295,6 +295,50 @@ func main() {
 		cmdVerify(os.Args[2:])
 	case "check":
 		cmdCheck(os.Args[2:])
+	case "loops":
+		// development aid: govc loops <pkg-suffix> <func> [config]: loop ordinals, header positions, phis
+		cfgN := "default"
+		if len(os.Args) > 4 {
+			cfgN = os.Args[4]
+		}
+		en, err := loadEngine("/repo", allConfigs[cfgN], "/verif/contracts")
+		if err != nil {
+			fmt.Println(err)
+			os.Exit(2)
+		}
+		for _, path := range pkgOrder {
+			if !strings.HasSuffix(path, os.Args[2]) {
+				continue
+			}
+			fn := en.lookupFunc(path, os.Args[3])
+			if fn == nil {
+				continue
+			}
+			hs := loopHeaders(fn)
+			for _, b := range fn.Blocks {
+				if ord, ok := hs[b.Index]; ok {
+					fmt.Printf("loop#%d block %d (%s)", ord, b.Index, b.Comment)
+					for _, ins := range b.Instrs {
+						if ph, ok := ins.(*ssa.Phi); ok {
+							fmt.Printf(" phi:%s", ph.Comment)
+						} else if ins.Pos().IsValid() {
+							fmt.Printf(" @%s", posOf(en, ins.Pos()))
+							break
+						}
+					}
+					fmt.Println()
+				}
+			}
+			n := 0
+			for _, b := range fn.Blocks {
+				for _, ins := range b.Instrs {
+					if c, ok := ins.(*ssa.Call); ok {
+						n++
+						fmt.Printf("call#%d %s @%s\n", n, c.Call.Value.Name(), posOf(en, c.Pos()))
+					}
+				}
+			}
+		}
 	default:
 		fmt.Fprintln(os.Stderr, "unknown command")
 		os.Exit(2)
@@ -386,6 +430,14 @@ func cmdVerify(args []string) {
 		}
 	}
 	fmt.Printf("%d function instances, %d obligations generated in %.1fs\n", len(results), len(all), time.Since(t0).Seconds())
+	if os.Getenv("GOVC_LIST") != "" {
+		cnt := map[string]int{}
+		for _, o := range all {
+			cnt[o.Kind]++
+		}
+		fmt.Println(cnt)
+		os.Exit(0)
+	}
 	ors := dischargeAll(all, *timeout, 8)
 	bad := 0
 	for _, o := range ors {
